@@ -31,6 +31,21 @@ def gen(rng, tier):
                 if i != j and regs[i][0] == regs[j][0] and regs[i][1] == regs[j][1] and vals[i] * vals[j] < 0:
                     nt = True
         yield Case(sx.dump(['bg', ['recs'] + [[R.h(c), s, e, v] for (c, s, e), v in zip(regs, vals)]]), nt, mode)
+    # chains of 11..70 book-ended records of EQUAL value (a maximal encoding is one record), some with nested records: at
+    # every interior joint all open records end and others start, so any sweep that relies on the order of equal-position
+    # events (starts before ends) and on an unstable sort shows here
+    for k in range(25 if tier == 'quick' else 400):
+        m = rng.choice([11, 17, 21, 25, 40, 41, 64, 70])
+        v = rng.choice([1, 3, -2])
+        x = rng.randint(0, 20); recs = []
+        for i in range(m):
+            L = rng.randint(1, 60)
+            recs.append((b'chr1', x, x + L, v))
+            if rng.random() < 0.3 and L >= 3:
+                a0 = x + rng.randint(0, L - 2); recs.append((b'chr1', a0, rng.randint(a0 + 1, x + L), rng.choice([0, 0, 2, -1])))
+            x += L
+        recs.sort(key=lambda r: (r[0], r[1], r[2]))
+        yield Case(sx.dump(['bg', ['recs'] + [[R.h(ch), s_, e_, vv] for (ch, s_, e_, vv) in recs]]), True, 'book-ended-chain')
     # clusters far larger than any internal batch / flush threshold a rewrite might introduce (1023 .. 4100 records in
     # one connected run), followed by a book-ended record whose value equals the level just left of the touching point
     # (so a maximal encoding must continue the run) and by a second cluster
